@@ -3,7 +3,8 @@
 From ChiaV.Base Require Import Bytes Sha256.
 From ChiaV.Clvm Require Import Sexp Ints TreeHash.
 From ChiaV.Gen Require Import Precomputed CurryFF.
-From ChiaV.Thash Require Import Heap Mirror Curry DeBr HeapProofs PrecomputedProofs TreeHashProofs CurryProofs.
+From ChiaV.Thash Require Import Heap Mirror Curry DeBr HeapProofs PrecomputedProofs TreeHashProofs CurryProofs
+  CacheProofs DeBrProofs SerProofs Agree Examples.
 Open Scope N_scope.
 
 (* (4) the table read from tree_hash.rs on this run: every one of its 24 entries is
@@ -46,3 +47,134 @@ Theorem C17_ff_curry_and_treehash : forall (H : bytes -> bytes) mod_tree inner m
   ff_curry_and_treehash H (th H inner) mod_hash launcher_id launcher_puzzle_hash
   = th H (singleton_puzzle mod_tree inner mod_hash launcher_id launcher_puzzle_hash).
 Proof. exact ff_curry_and_treehash_correct. Qed.
+
+(* (2) tree_hash_cached from ANY cache state reachable by visit_tree / tree_hash_cached calls,
+   on an allocator that may have grown in between (R_grow): the reference hash, no panic *)
+Theorem C17_tree_hash_cached_any_history : forall (H : bytes -> bytes), table_ok H ->
+  forall h c n fuel, reachable H h c -> valid h n ->
+  (length (h_pairs h) + 2 * node_count (den h n) <= fuel)%nat ->
+  exists c', tree_hash_cached H fuel h n c = Ok (th H (den h n), c') /\ reachable H h c'.
+Proof. exact tree_hash_cached_any_history. Qed.
+
+Theorem C17_tree_hash_cached_any_history_sha256 : forall h c n fuel,
+  reachable sha256 h c -> valid h n ->
+  (length (h_pairs h) + 2 * node_count (den h n) <= fuel)%nat ->
+  exists c', tree_hash_cached sha256 fuel h n c = Ok (th sha256 (den h n), c') /\ reachable sha256 h c'.
+Proof. exact (tree_hash_cached_any_history sha256 table_ok_sha256). Qed.
+
+Theorem C17_tree_hash_cached_any_fuel : forall (H : bytes -> bytes), table_ok H ->
+  forall h c n fuel, reachable H h c -> valid h n ->
+  match tree_hash_cached H fuel h n c with
+  | Ok (x, _) => x = th H (den h n)
+  | Panic => False
+  | OutOfFuel => True
+  end.
+Proof. exact tree_hash_cached_any_history_any_fuel. Qed.
+
+(* the invariant behind it, for any cache satisfying it (not only reachable ones) *)
+Theorem C17_tree_hash_cached_invariant : forall (H : bytes -> bytes), table_ok H ->
+  forall h n c fuel, wf h -> valid h n -> cache_ok H h c ->
+  (length (h_pairs h) + 2 * node_count (den h n) <= fuel)%nat ->
+  exists c', tree_hash_cached H fuel h n c = Ok (th H (den h n), c') /\ cache_ok H h c'.
+Proof. exact tree_hash_cached_correct. Qed.
+
+(* visit_tree alone: keeps the invariant, no panic, terminates within the number of pairs *)
+Theorem C17_visit_tree : forall (H : bytes -> bytes) h n c fuel,
+  wf h -> valid h n -> cache_ok H h c -> (length (h_pairs h) <= fuel)%nat ->
+  exists c', visit_tree fuel h n c = Ok c' /\ cache_ok H h c'.
+Proof. exact visit_tree_total. Qed.
+
+(* (3) tree_hash_from_bytes: whatever the input deserializes to (back-references included) *)
+Theorem C17_tree_hash_from_bytes : forall (H : bytes -> bytes), table_ok H ->
+  forall bs t fuel, deser_br bs = DOk t ->
+  (4 * length bs + 4 + 2 * node_count t <= fuel)%nat ->
+  tree_hash_from_bytes H fuel bs = FOk (th H t).
+Proof. exact tree_hash_from_bytes_ok. Qed.
+
+Theorem C17_tree_hash_from_bytes_plain : forall (H : bytes -> bytes), table_ok H ->
+  forall bs t rest fuel, deser bs = Some (t, rest) ->
+  (4 * length bs + 4 + 2 * node_count t <= fuel)%nat ->
+  tree_hash_from_bytes H fuel bs = FOk (th H t).
+Proof. exact tree_hash_from_bytes_plain. Qed.
+
+Theorem C17_tree_hash_from_bytes_sha256 : forall bs t fuel, deser_br bs = DOk t ->
+  (4 * length bs + 4 + 2 * node_count t <= fuel)%nat ->
+  tree_hash_from_bytes sha256 fuel bs = FOk (th sha256 t).
+Proof. exact (tree_hash_from_bytes_ok sha256 table_ok_sha256). Qed.
+
+Theorem C17_tree_hash_from_bytes_rejects : forall (H : bytes -> bytes), table_ok H ->
+  forall bs fuel, deser_br bs = DErr -> tree_hash_from_bytes H fuel bs = FErr.
+Proof. exact tree_hash_from_bytes_err. Qed.
+
+Theorem C17_tree_hash_from_bytes_no_panic : forall (H : bytes -> bytes), table_ok H ->
+  forall bs fuel, tree_hash_from_bytes H fuel bs <> FPanic.
+Proof. exact tree_hash_from_bytes_no_panic. Qed.
+
+(* the tree-level deserializer is total: a tree or an error, for every input *)
+Theorem C17_deser_br_total : forall bs, deser_br bs <> DPanic /\ deser_br bs <> DFuel.
+Proof. exact deser_br_total. Qed.
+
+(* on plain serializations it is the plain deserializer *)
+Theorem C17_deser_br_extends_plain : forall bs t rest, deser bs = Some (t, rest) -> deser_br bs = DOk t.
+Proof. exact deser_br_plain. Qed.
+
+(* both allocator-level deserializers denote the tree the specification reads, with the same
+   accept/reject verdict and never a panic: the Vec-based one that tree_hash_from_bytes runs
+   (lazily materialised, cached stack lists) and the older stack-as-cons-list one *)
+Theorem C17_backrefs_vec_refines_tree : forall bs,
+  match deser_br bs, node_from_bytes_backrefs bs with
+  | DOk t, DOk (h, n) =>
+      wf h /\ valid h n /\ den h n = t /\ (length (h_pairs h) <= 2 * debr_fuel bs)%nat
+  | DErr, DErr => True
+  | _, _ => False
+  end.
+Proof. exact node_from_bytes_backrefs_refines. Qed.
+
+Theorem C17_backrefs_conslist_refines_tree : forall bs,
+  match deser_br bs, node_from_bytes_backrefs_old bs with
+  | DOk t, DOk (h, n) =>
+      wf h /\ valid h n /\ den h n = t /\ (length (h_pairs h) <= 2 * debr_fuel bs)%nat
+  | DErr, DErr => True
+  | _, _ => False
+  end.
+Proof. exact node_from_bytes_backrefs_old_refines. Qed.
+
+Theorem C17_tree_hash_from_bytes_via_conslist : forall (H : bytes -> bytes), table_ok H ->
+  forall bs t fuel, deser_br bs = DOk t ->
+  (4 * length bs + 4 + 2 * node_count t <= fuel)%nat ->
+  tree_hash_from_bytes_old H fuel bs = FOk (th H t).
+Proof. exact tree_hash_from_bytes_old_ok. Qed.
+
+(* plain serialization: deser inverts ser (trailing bytes are left over), so the hash of the bytes
+   node_to_bytes writes for a tree is the reference hash of that tree *)
+Theorem C17_plain_roundtrip : forall t bs extra, ser t = Some bs -> deser (bs ++ extra) = Some (t, extra).
+Proof. exact deser_ser. Qed.
+
+Theorem C17_tree_hash_from_bytes_of_plain_serialization : forall (H : bytes -> bytes), table_ok H ->
+  forall t bs extra fuel, ser t = Some bs -> (6 * length (bs ++ extra) + 4 <= fuel)%nat ->
+  tree_hash_from_bytes H fuel (bs ++ extra) = FOk (th H t).
+Proof. exact tree_hash_from_bytes_of_ser. Qed.
+
+(* all routines side by side: two unrelated heaps denoting the same tree, any reachable cache, any
+   bytes that deserialize to that tree *)
+Theorem C17_all_routines_agree : forall (H : bytes -> bytes), table_ok H ->
+  forall h1 n1 h2 n2 c bs t fuel,
+  wf h1 -> valid h1 n1 -> den h1 n1 = t ->
+  reachable H h2 c -> valid h2 n2 -> den h2 n2 = t ->
+  deser_br bs = DOk t ->
+  (length (h_pairs h2) + 4 * length bs + 4 + 2 * node_count t <= fuel)%nat ->
+  tree_hash_stack H fuel h1 n1 = Ok (th H t) /\
+  (exists c', tree_hash_cached H fuel h2 n2 c = Ok (th H t, c')) /\
+  tree_hash_from_bytes H fuel bs = FOk (th H t).
+Proof. exact all_routines_agree. Qed.
+
+(* ---- non-vacuity ---- *)
+Theorem C17_example_shared_heap_reachable_cache :
+  wf ex_heap /\ valid ex_heap (NPair 2) /\
+  (den ex_heap (NPair 2) = let p0 := Pair (Atom [x01; x02; x03]) (Atom [x05]) in Pair (Pair p0 p0) p0) /\
+  exists c, reachable sha256 ex_heap c /\ c_hashes c <> [].
+Proof. exact (conj ex_heap_wf (conj ex_valid (conj ex_den ex_reachable))). Qed.
+
+Theorem C17_example_backref_bytes :
+  deser_br ex_br_bytes = DOk (Pair (Atom ex_foobar) (Pair (Atom ex_foobar) nil)) /\ deser ex_br_bytes = None.
+Proof. exact (conj ex_deser_br ex_plain_rejects). Qed.
